@@ -1,4 +1,5 @@
 import CV.Proofs.WebSocket
+import CV.Proofs.WebSocketEndpoint
 /-
 C17 - WebSocket frames round-trip exactly, whatever the segmentation or fragmentation.
 
@@ -202,5 +203,151 @@ theorem after_close_sent (s : St) (client text : Bool) (data key : Bytes) :
 theorem close_frame_once (s : St) :
     (onClose (onClose s).1).2.filter (fun o => o matches CloseOut.frame _) = [] := by
   cases h : s.closeRecv <;> simp [onClose, h]
+
+/-! ### the endpoints: the codec as installed by `WebSocketClient` / `WebSocketsDispatcher` (CV.WSE)
+
+`hs` is the HTTP head of the handshake as the parser finds it: `splitHead hs = some (hs, [])` says that
+its first line is followed by header lines and that the first empty line behind the first line is its
+end (any request line, any status line, any headers). -/
+section endpoints
+open CV.WSE
+
+/-- For every cut of the connection's byte stream into reads - inside the first line, inside the
+    headers, inside the CRLFCRLF, anywhere in what follows, or not at all - the HTTP parser takes
+    exactly the head, and the bytes behind it reach the endpoint split into "rest of the read that
+    completed the head" (`left`, the message body the codec is created from) and the later reads:
+    nothing lost, nothing duplicated, nothing reordered. -/
+theorem handshake_leftover_exact (hs rest : Bytes) (segs : List Bytes)
+    (hhs : splitHead hs = some (hs, [])) (hsegs : segs.flatten = hs ++ rest) :
+    ∃ left later, hsFeed [] segs = some (hs, left, later) ∧ left ++ later.flatten = rest :=
+  hsFeed_exact hhs rest segs [] splitHead_nil (by simpa using hsegs)
+
+/-- "GET /\r\nH:1\r\n\r\n" + 3 bytes, cut inside the CRLFCRLF and inside the rest -/
+example : hsFeed [] [[71, 13, 10, 72, 58, 49, 13, 10, 13], [10, 1, 2], [3]]
+    = some ([71, 13, 10, 72, 58, 49, 13, 10, 13, 10], [1, 2], [[3]]) := by decide
+
+example : splitHead [71, 13, 10, 72, 58, 49, 13, 10, 13, 10] = some ([71, 13, 10, 72, 58, 49, 13, 10, 13, 10], []) := by
+  decide
+
+/-- the client's codec (created with `data=response.body.read()`) is fed exactly the bytes behind the
+    101 head, in order, for every cut -/
+theorem client_codec_sees_rest (hs rest : Bytes) (segs : List Bytes)
+    (hhs : splitHead hs = some (hs, [])) (hsegs : segs.flatten = hs ++ rest) :
+    ∃ reads, codecReads Side.client segs = some reads ∧ reads.flatten = rest := by
+  obtain ⟨left, later, hf, hr⟩ := handshake_leftover_exact hs rest segs hhs hsegs
+  exact ⟨left :: later, by simp [codecReads, hf, initialData], by simpa using hr⟩
+
+example : codecReads Side.client [[71, 13, 10, 72, 58, 49, 13, 10, 13], [10, 1, 2], [3]] = some [[1, 2], [3]] := by
+  decide
+
+/-- Client endpoint, end to end: the 101 head followed by the frames of a conforming peer (as in
+    `decode_roundtrip`), the whole cut into reads in any way - also frames glued behind the head in
+    the same read, also a cut inside the head: the endpoint emits exactly what RFC 6455 demands. -/
+theorem e2e_client_roundtrip (hs : Bytes) (fs : List RFrame) (tail : Bytes) (segs : List Bytes)
+    (hhs : splitHead hs = some (hs, []))
+    (hc : conforming none fs = true)
+    (ht : parseFrame tail = none ∨ fs.any (fun f => f.opcode == 8) = true)
+    (hsegs : segs.flatten = hs ++ (rfcEncodeFrames fs ++ tail)) :
+    endpointOuts Side.client false segs = expected false none fs := by
+  obtain ⟨reads, hr, hfl⟩ := client_codec_sees_rest hs _ segs hhs hsegs
+  simp only [endpointOuts, hr]
+  exact decode_roundtrip false fs tail reads hc ht hfl
+
+/-- non-vacuity: head + text "a" (0x81 0x01 0x61), the frame glued behind the head and cut in its header -/
+example : endpointOuts Side.client false [[71, 13, 10, 72, 58, 49, 13, 10, 13], [10, 0x81], [0x01, 0x61]]
+    = [Out.message true [0x61]] := by
+  have := e2e_client_roundtrip [71, 13, 10, 72, 58, 49, 13, 10, 13, 10] [⟨true, 1, none, [0x61]⟩] []
+    [[71, 13, 10, 72, 58, 49, 13, 10, 13], [10, 0x81], [0x01, 0x61]] (by decide) (by decide)
+    (Or.inl parseFrame_nil) (by decide)
+  simpa [expected] using this
+
+/-- Server endpoint, end to end, for a peer that keeps RFC 6455 4.1 ("the client MUST wait for a
+    response from the server before sending any further data"): the upgrade request arrives in reads
+    of its own (cut anywhere), the frames in later reads (cut anywhere): the dispatcher's codec emits
+    exactly what RFC 6455 demands. -/
+theorem e2e_server_roundtrip (hs : Bytes) (fs : List RFrame) (tail : Bytes) (hsegs fsegs : List Bytes)
+    (hhs : splitHead hs = some (hs, []))
+    (hc : conforming none fs = true)
+    (ht : parseFrame tail = none ∨ fs.any (fun f => f.opcode == 8) = true)
+    (hh : hsegs.flatten = hs) (hf : fsegs.flatten = rfcEncodeFrames fs ++ tail) :
+    endpointOuts Side.server false (hsegs ++ fsegs) = expected false none fs := by
+  obtain ⟨left, later, hfd, hr⟩ := handshake_leftover_exact hs [] hsegs hhs (by simpa using hh)
+  have hl : later.flatten = [] := (List.append_eq_nil_iff.mp hr).2
+  have := hsFeed_append fsegs hfd
+  simp only [endpointOuts, codecReads, this, initialData]
+  exact decode_roundtrip false fs tail ([] :: (later ++ fsegs)) hc ht (by simp [hl, hf])
+
+example : endpointOuts Side.server false ([[71, 13, 10, 72, 58, 49, 13, 10, 13], [10]] ++ [[0x81], [0x01, 0x61]])
+    = [Out.message true [0x61]] := by
+  have := e2e_server_roundtrip [71, 13, 10, 72, 58, 49, 13, 10, 13, 10] [⟨true, 1, none, [0x61]⟩] []
+    [[71, 13, 10, 72, 58, 49, 13, 10, 13], [10]] [[0x81], [0x01, 0x61]] (by decide) (by decide)
+    (Or.inl parseFrame_nil) (by decide) (by decide)
+  simpa [expected] using this
+
+/-- Why the hypothesis: the dispatcher creates its codec without `data=` - bytes a (non-conforming)
+    client glues behind the upgrade request in the same read stay in `request.body`; the codec's
+    reads do not contain them.  (Outside C17's statement: such a peer is not a conforming peer.) -/
+theorem e2e_server_glued_witness :
+    codecReads Side.server [[71, 13, 10, 72, 58, 49, 13, 10, 13, 10, 0x81, 0x01, 0x61]] = some [[]] ∧
+    codecReads Side.client [[71, 13, 10, 72, 58, 49, 13, 10, 13, 10, 0x81, 0x01, 0x61]] = some [[0x81, 0x01, 0x61]] := by
+  decide
+
+/-- Several connections at once: what the connection of socket `s` is delivered / answered and the
+    state of its codec depend on the events of `s` alone - reads, upgrades and disconnects of other
+    sockets, interleaved in any way, change nothing (no message crosses connections). -/
+theorem connections_independent (s : Nat) (evs : List Ev) (t : Table) :
+    (run t evs).1 s = (run t (evs.filter (fun e => e.sock == s))).1 s ∧
+    (run t evs).2.filter (fun p => p.1 == s) = (run t (evs.filter (fun e => e.sock == s))).2 :=
+  run_independent s evs t t rfl
+
+/-- with `decode_roundtrip`: on a dispatcher serving any number of other connections, the frames of a
+    conforming peer on socket `s`, cut in any way and interleaved with the other sockets' events in
+    any way, are delivered for `s` exactly as RFC 6455 demands -/
+theorem e2e_interleaved_roundtrip (s : Nat) (evs : List Ev) (t : Table) (fs : List RFrame) (tail : Bytes)
+    (segs : List Bytes)
+    (hmine : evs.filter (fun e => e.sock == s) = Ev.upgrade s :: segs.map (Ev.read s))
+    (hc : conforming none fs = true)
+    (ht : parseFrame tail = none ∨ fs.any (fun f => f.opcode == 8) = true)
+    (hsegs : segs.flatten = rfcEncodeFrames fs ++ tail) :
+    (run t evs).2.filter (fun p => p.1 == s) = (expected false none fs).map (fun o => (s, o)) := by
+  rw [(connections_independent s evs t).2, hmine]
+  have key : ∀ (segs : List Bytes) (t : Table) (st : St), t s = some st →
+      (run t (segs.map (Ev.read s))).2 = (feedAll st segs).2.map (fun o => (s, o)) := by
+    intro segs
+    induction segs with
+    | nil => intro t st _; simp [run, feedAll]
+    | cons d ds ih =>
+      intro t st hst
+      simp only [List.map_cons, run, step, hst, feedAll, List.map_append]
+      rw [ih _ (feed st d).1 (by simp [Table.set])]
+  simp only [run, step, List.nil_append]
+  rw [key segs _ {} (by simp [Table.set])]
+  have := decode_roundtrip false fs tail segs hc ht hsegs
+  rw [this]
+
+example : (run emptyTable [Ev.upgrade 1, Ev.upgrade 2, Ev.read 1 [0x81], Ev.read 2 [0x82, 0x01, 0x07],
+    Ev.disconnect 2, Ev.read 1 [0x01, 0x61]]).2.filter (fun p => p.1 == 1) = [(1, Out.message true [0x61])] := by
+  have := e2e_interleaved_roundtrip 1 [Ev.upgrade 1, Ev.upgrade 2, Ev.read 1 [0x81], Ev.read 2 [0x82, 0x01, 0x07],
+    Ev.disconnect 2, Ev.read 1 [0x01, 0x61]] emptyTable [⟨true, 1, none, [0x61]⟩] [] [[0x81], [0x01, 0x61]]
+    (by decide) (by decide) (Or.inl parseFrame_nil) (by decide)
+  simpa [expected] using this
+
+/-- after the disconnect of a socket nothing of it is left in the table, and reads that still name
+    it produce nothing -/
+theorem disconnect_clears (t : Table) (s : Nat) (reads : List Bytes) :
+    (step t (Ev.disconnect s)).1 s = none ∧
+    (run (step t (Ev.disconnect s)).1 (reads.map (Ev.read s))).2 = [] := by
+  refine ⟨by simp [step, Table.set], ?_⟩
+  have key : ∀ (reads : List Bytes) (t : Table), t s = none → (run t (reads.map (Ev.read s))).2 = [] := by
+    intro reads
+    induction reads with
+    | nil => intro t _; simp [run]
+    | cons d ds ih =>
+      intro t ht
+      simp only [List.map_cons, run, step, ht, List.nil_append]
+      exact ih t ht
+  exact key reads _ (by simp [step, Table.set])
+
+end endpoints
 
 end CV.C17
